@@ -728,6 +728,12 @@ func (w *World) logResp(r *Req) {
 		}
 	}
 	kv = append(kv, "code", code1, "okAck", code == 200 && string(body) == "ok")
+	// the session's real state at the instant of the response (the close EVENT may still be to come)
+	rsNow := ""
+	if so := w.Sock(sid); so != nil {
+		rsNow = so.ReadyState()
+	}
+	kv = append(kv, "rsNow", rsNow)
 	kv = append(kv, "sid", sid, "setcookie", hdr.Values("Set-Cookie"), "acao", hdr.Get("Access-Control-Allow-Origin"),
 		"vary", hdr.Get("Vary"), "acac", hdr.Get("Access-Control-Allow-Credentials"))
 	w.rec.Log("cli.resp", kv...)
